@@ -97,6 +97,31 @@ def obj_class():
             return ("tagged", tag, payload)
 
         @rpc_method
+        def raise_from(self, exc, cause):
+            raise exc from cause
+
+        @rpc_method
+        def get_self(self):
+            return self
+
+        @rpc_method
+        def get_proxy(self):
+            return self._context.get_rpc_object_by_name(f"{self._context.name}.{self._name}")
+
+        @rpc_method
+        def get_future(self):
+            return self._context.get_rpc_object_by_name(f"{self._context.name}.{self._name}").rpc_nonblocking.state()
+
+        @rpc_method
+        def __enter__(self):
+            self._log.append("enter")
+            return len(self._log)
+
+        @rpc_method
+        def __exit__(self, *args, **kwargs):
+            self._log.append("exit")
+
+        @rpc_method
         def zz_last(self, *args, **kwargs):
             return "zz_last"
 
@@ -784,6 +809,251 @@ def churn_oracle(plan, records, info):
 
 
 # ---------------------------------------------------------------------------
+# rpc_timeout: in time = direct call; too late = QMI_RpcTimeoutException, the late reply touches nobody
+# ---------------------------------------------------------------------------
+
+def gen_timeout_plan(rng, qn, seed):
+    return {"seed": seed, "policy": rng.choice(["weighted", "pct"]), "t1_where": rng.choice(["local", "peer"]),
+            "pending": [rng.choice(["local", "peer"]) for _ in range(rng.randint(1, 3))],
+            "payload": V.gen_value(rng, 1, qmi_names=qn), "t1_mode": rng.choice(["blk", "nbwait"])}
+
+
+def run_timeouts(plan, real_tcp=False, want_trace=True):
+    """Returns (checks, trace, info); a check = (name, expected, outcome)."""
+    checks = []
+    trace = T.Trace() if want_trace else None
+    binding, params = plan.get("binding", BINDING), plan.get("params", HELPER_PARAMS)
+    payload = plan["payload"]
+
+    def body(w):
+        import threading
+        from harness import detsched as D
+        from qmi.core.exceptions import QMI_RpcTimeoutException
+        from qmi.core.rpc import make_interface_descriptor
+        sim = not real_tcp
+        short, long_ = (2.0, 500.0) if sim else (0.3, 60.0)
+        srv = w.context("srv", server=True)
+        lf = srv.make_rpc_object("fast", obj_class())
+        ls = srv.make_rpc_object("slow", slow_class())
+        cli = w.context("cli")
+        w.connect(cli, srv)
+        fn, sn = method_names(), [d.name for d in make_interface_descriptor(slow_class()).methods]
+        prox = {"local": (lf, ls), "peer": (cli.get_rpc_object_by_name("srv.fast"), cli.get_rpc_object_by_name("srv.slow"))}
+        pid = {}
+        for wh in prox:
+            pid[wh] = ((T.note_proxy(trace, fn, binding[0], "blk", params[0]), T.note_proxy(trace, fn, binding[1], "nb", params[1]),
+                        T.note_proxy(trace, sn, binding[0], "blk", params[0]), T.note_proxy(trace, sn, binding[1], "nb", params[1]))
+                       if trace else (0, 0, 0, 0))
+        gate = D.Event() if sim else threading.Event()
+        _GATE[0] = gate
+        threads = []
+        for i, wh in enumerate(plan["pending"]):
+            def pend(i=i, wh=wh):
+                f = T.call_stub(trace, pid[wh][3], prox[wh][1].rpc_nonblocking, "hold", (f"pend{i}",), {})
+                checks.append((f"pending{i}:{wh}", ("val", ("held", f"pend{i}")), _outcome(f.wait)))
+            threads.append(w.spawn(pend, f"pend{i}"))
+        for wh in ("local", "peer"):
+            def intime(wh=wh):
+                out = _outcome(lambda: T.call_stub(trace, pid[wh][0], prox[wh][0], "tagged", (f"intime-{wh}",),
+                                                   {"payload": V.build(payload), "rpc_timeout": long_}))
+                checks.append((f"in-time:{wh}", ("val", ("tagged", f"intime-{wh}", V.build(payload))), out))
+                out = _outcome(lambda: T.call_stub(trace, pid[wh][1], prox[wh][0].rpc_nonblocking, "tagged", ("x",), {"rpc_timeout": 1.0}))
+                checks.append((f"nonblocking-rpc_timeout:{wh}", ("exctype", RuntimeError), out))
+            threads.append(w.spawn(intime, f"intime-{wh}"))
+        wh = plan["t1_where"]
+
+        def t1():
+            if plan["t1_mode"] == "blk":
+                out = _outcome(lambda: T.call_stub(trace, pid[wh][2], prox[wh][1], "hold", ("T1",), {"rpc_timeout": short}))
+            else:
+                f = T.call_stub(trace, pid[wh][3], prox[wh][1].rpc_nonblocking, "hold", ("T1",), {})
+                out = _outcome(lambda: f.wait(short))
+            checks.append((f"too-late:{wh}:{plan['t1_mode']}", ("exctype", QMI_RpcTimeoutException), out))
+            out = _outcome(lambda: T.call_stub(trace, pid[wh][0], prox[wh][0], "tagged", ("T1-after",), {}))
+            checks.append((f"after-timeout:{wh}", ("val", ("tagged", "T1-after", None)), out))
+        th = w.spawn(t1, "t1")
+        th.join()
+        gate.set()
+        for t in threads:
+            t.join()
+        out = _outcome(lambda: T.call_stub(trace, pid[wh][2], prox[wh][1], "hold", ("T1-again",), {"rpc_timeout": long_}))
+        checks.append((f"after-late-reply:{wh}", ("val", ("held", "T1-again")), out))
+        _GATE[0] = None
+        if trace:
+            trace.enabled = False
+        return True
+
+    T.TRACE = trace
+    try:
+        if real_tcp:
+            info = _run_real(body)
+        else:
+            from harness.simworld import run_scenario
+            out = run_scenario(plan["seed"], body, policy=plan.get("policy", "weighted"))
+            info = {"deadlock": out.deadlock, "budget": out.budget, "error": out.error,
+                    "thread_errors": out.thread_errors, "loop_exceptions": list(out.net.loop_exceptions) if out.net else []}
+    finally:
+        T.TRACE = None
+        g = _GATE[0]
+        _GATE[0] = None
+        if g is not None and real_tcp:
+            g.set()
+    return checks, trace, info
+
+
+def checks_oracle(checks, info, expected_count=None):
+    """None or (clause, detail) for a list of (name, expected, outcome)"""
+    if info.get("deadlock") or info.get("budget"):
+        return "no-outcome", f"{str(info.get('deadlock'))[:300]} (checks done: {[c[0] for c in checks]})"
+    if info.get("error") is not None:
+        return "scenario-error", repr(info["error"])[:300]
+    for name, exp, out in checks:
+        if exp[0] == "exctype":
+            ok = out[0] == "exc" and type(out[1]) is exp[1]
+        elif exp[0] == "true":
+            ok = bool(out)
+        else:
+            ok = compare(exp, out) is None
+        if not ok:
+            return name.split(":")[0], f"{name}: expected {exp!r:.200}, got {out!r:.200}"
+    if expected_count is not None and len(checks) != expected_count:
+        return "no-outcome", f"{len(checks)} checks of {expected_count} completed"
+    return None
+
+
+# ---------------------------------------------------------------------------
+# fixed corpus: locks / tokens in sync, context-manager protocol, chained exceptions, special return values
+# ---------------------------------------------------------------------------
+
+def run_corpus(seed, real_tcp=False):
+    """Returns (checks, observations, trace, info)."""
+    checks, obs = [], {}
+    trace = T.Trace()
+
+    def body(w):
+        from qmi.core.exceptions import QMI_RuntimeException
+        srv = w.context("srv", server=True)
+        cli = w.context("cli")
+        w.connect(cli, srv)
+        fn = method_names()
+
+        def mk(name):
+            made = srv.make_rpc_object(name, obj_class())
+            other = srv.get_rpc_object_by_name(f"srv.{name}")
+            peer = cli.get_rpc_object_by_name(f"srv.{name}")
+            return made, other, peer
+        pids = (T.note_proxy(trace, fn, BINDING[0], "blk", HELPER_PARAMS[0]), T.note_proxy(trace, fn, BINDING[1], "nb", HELPER_PARAMS[1]))
+
+        def call(p, m, *a, **k):
+            return _outcome(lambda: T.call_stub(trace, pids[0], p, m, a, k))
+
+        def callnb(p, m, *a, **k):
+            f = _outcome(lambda: T.call_stub(trace, pids[1], p.rpc_nonblocking, m, a, k))
+            return f if f[0] == "exc" else _outcome(f[1].wait)
+        locked = ("exctype", QMI_RuntimeException)
+        # ---- locks: the token both stubs forward is the one lock() obtained -------------------------------------
+        for who in ("local", "peer"):
+            p, q, r = mk(f"lk{who}")
+            owner, stranger, far = (p, q, r) if who == "local" else (r, p, q)
+            checks.append((f"lock:{who}:granted", ("true",), owner.lock()))
+            checks.append((f"lock-token-sync:{who}:after-lock", ("true",),
+                           owner._lock_token is not None and owner._lock_token == owner.rpc_nonblocking._lock_token))
+            checks.append((f"lock:{who}:owner-blocking", ("val", ((1,), {"k": 2})), call(owner, "echo", 1, k=2)))
+            checks.append((f"lock:{who}:owner-nonblocking", ("val", ((1,), {"k": 2})), callnb(owner, "echo", 1, k=2)))
+            checks.append((f"lock:{who}:stranger-blocking-refused", locked, call(stranger, "echo", 1)))
+            checks.append((f"lock:{who}:stranger-nonblocking-refused", locked, callnb(stranger, "echo", 1)))
+            checks.append((f"lock:{who}:stranger2-refused", locked, call(far, "accumulate", "x")))
+            checks.append((f"lock:{who}:second-lock-denied", ("true",), stranger.lock() is False))
+            checks.append((f"lock:{who}:state-untouched-by-refused-calls", ("val", (0, ())), call(owner, "state")))
+            checks.append((f"lock:{who}:unlock", ("true",), owner.unlock()))
+            checks.append((f"lock-token-sync:{who}:after-unlock", ("true",),
+                           owner._lock_token is None and owner.rpc_nonblocking._lock_token is None))
+            checks.append((f"lock:{who}:stranger-after-unlock", ("val", ((1,), {})), call(stranger, "echo", 1)))
+            checks.append((f"lock:{who}:custom-token", ("true",), owner.lock(lock_token="tok")))
+            checks.append((f"lock-token-sync:{who}:custom", ("true",), owner._lock_token == owner.rpc_nonblocking._lock_token))
+            checks.append((f"lock:{who}:owner-custom-nonblocking", ("val", ((), {"z": None})), callnb(owner, "echo", z=None)))
+            stranger.force_unlock()
+            checks.append((f"lock:{who}:after-force-unlock", ("val", ((2,), {})), callnb(stranger, "echo", 2)))
+        # ---- context-manager protocol ---------------------------------------------------------------------------
+        direct = new_direct()
+        with direct:
+            direct.accumulate("body")
+        try:
+            with direct:
+                raise KeyError("boom")
+        except KeyError:
+            pass
+        want = direct.state()
+        for who in ("local", "peer"):
+            p, q, r = mk(f"cm{who}")
+            px = p if who == "local" else r
+            with px as bound:
+                checks.append((f"context-manager:{who}:as-binds-the-proxy", ("true",), bound is px))
+                px.accumulate("body")
+            try:
+                with px:
+                    raise KeyError("boom")
+            except KeyError:
+                pass
+            checks.append((f"context-manager:{who}:enter-exit-forwarded-like-direct", ("val", want), call(px, "state")))
+        # ---- chained exceptions: type, args and attributes travel; __cause__ / __traceback__ do not (pickle) ------------
+        p, q, r = mk("exc")
+        for who, px in (("local", p), ("peer", r)):
+            e = V.build(["exc", "QMI_InstrumentException", [["str", [98, 97, 100]], ["int", "7"]], [["detail", ["int", "5"]]], []])
+            out = call(px, "raise_from", e, ValueError("root cause"))
+            d = _outcome(lambda: new_direct().raise_from(
+                V.build(["exc", "QMI_InstrumentException", [["str", [98, 97, 100]], ["int", "7"]], [["detail", ["int", "5"]]], []]),
+                ValueError("root cause")))
+            checks.append((f"chained-exception:{who}:type-args-attributes", d, out))
+            if out[0] == "exc":
+                obs[f"chained_exception_{who}_cause_carried"] = out[1].__cause__ is not None
+                obs[f"chained_exception_{who}_traceback_carried"] = out[1].__traceback__ is not None
+        # ---- return values that are the object itself / a proxy / a future ----------------------------------------------
+        p, q, r = mk("ret")
+        served = srv._rpc_object_map["ret"].rpc_object()
+        out = call(p, "get_self")
+        checks.append(("special-return:local:self-is-the-served-object", ("true",), out[0] == "val" and out[1] is served))
+        out = call(p, "get_proxy")
+        checks.append(("special-return:local:proxy-usable", ("true",), out[0] == "val" and out[1].state() == (0, ())))
+        out = call(p, "get_future")
+        checks.append(("special-return:local:future-usable", ("true",), out[0] == "val" and out[1].wait() == (0, ())))
+        for m in ("get_self", "get_proxy", "get_future"):
+            out = call(r, m)                          # not picklable: outside the quantifier — but the call must END
+            obs[f"special_return_peer_{m}"] = f"{out[0]}:{type(out[1]).__name__}"
+            checks.append((f"special-return:peer:{m}-has-an-outcome", ("true",), out[0] in ("val", "exc")))
+        checks.append(("special-return:peer:object-still-serves", ("val", (0, ())), call(r, "state")))
+        # ---- `with` on a peer proxy of a QMI_Instrument: __enter__ returns the (unpicklable) instrument -------------------
+        from qmi.core.instrument import QMI_Instrument
+        ip = srv.make_rpc_object("instr", QMI_Instrument)
+        ir = cli.get_rpc_object_by_name("srv.instr")
+        try:
+            with ir:
+                pass
+            obs["with_peer_instrument_proxy"] = "works"
+        except BaseException as e:  # noqa
+            if type(e).__name__ in ("SchedAbort", "Deadlock", "StepBudget"):
+                raise
+            obs["with_peer_instrument_proxy"] = f"raises {type(e).__name__}; instrument left open: {ip.is_open()}"
+            if ip.is_open():
+                ip.close()
+        trace.enabled = False
+        return True
+
+    T.TRACE = trace
+    try:
+        if real_tcp:
+            info = _run_real(body)
+        else:
+            from harness.simworld import run_scenario
+            out = run_scenario(seed, body)
+            info = {"deadlock": out.deadlock, "budget": out.budget, "error": out.error,
+                    "thread_errors": out.thread_errors, "loop_exceptions": list(out.net.loop_exceptions) if out.net else []}
+    finally:
+        T.TRACE = None
+    return checks, obs, trace, info
+
+
+# ---------------------------------------------------------------------------
 # translator: how the stubs are bound, and which helper parameters a caller keyword can collide with
 # ---------------------------------------------------------------------------
 
@@ -1011,6 +1281,14 @@ CATALOGUE = [
 ]
 
 
+import contextlib as _contextlib
+
+
+@_contextlib.contextmanager
+def _null():
+    yield
+
+
 class C02(Prop):
     id = "C02"
     lean_modules = ["QmiModel.Props.C02"]
@@ -1170,6 +1448,49 @@ class C02(Prop):
             if i < 1 and not real_tcp:
                 res.sample({"concurrent_plan": json.dumps(plan)[:400]})
 
+    def _add_trace(self, res, trace, case, lines, outs, spans):
+        if trace is None:
+            return
+        l, o = trace.lines()
+        spans.append((len(lines), len(l), case))
+        lines += l
+        outs += o
+        res.traces_validated += 1
+        if len(lines) > 250000:
+            self._diff(res, lines, outs, spans)
+
+    def _corpus(self, ctx, res, seen, lines, outs, spans, real_tcp=False):
+        """fixed corpus, first on every seed: locks / tokens, context manager, chained exceptions, special return values"""
+        for seed in ((ctx.seed, ctx.seed + 1000) if not real_tcp else (ctx.seed,)):
+            checks, obs, trace, info = run_corpus(seed, real_tcp=real_tcp)
+            r = checks_oracle(checks, info)
+            res.count("corpus_checks" + ("_tcp" if real_tcp else ""), len(checks))
+            res.note_case(("corpus", seed, real_tcp))
+            res.extra.setdefault("observations", {}).update(obs)
+            if r and f"corpus:{r[0]}" not in seen:
+                seen[f"corpus:{r[0]}"] = 1
+                res.failures.append(Failure(f"corpus:{r[0]}", f"fixed corpus (seed {seed}): {r[1][:400]}",
+                                            {"kind": "corpus", "seed": seed, "real_tcp": real_tcp}))
+            self._add_trace(res, trace, {"kind": "corpus", "seed": seed, "real_tcp": real_tcp}, lines, outs, spans)
+
+    def _timeouts(self, ctx, res, n, seen, lines, outs, spans, real_tcp=False):
+        rng = ctx.rng
+        qn = V.qmi_exception_names()
+        for i in range(n):
+            plan = gen_timeout_plan(rng, qn, rng.randrange(1 << 30))
+            if not V.pickle_roundtrips(V.build(plan["payload"])):
+                plan["payload"] = ["int", "1"]
+            checks, trace, info = run_timeouts(plan, real_tcp=real_tcp)
+            r = checks_oracle(checks, info, expected_count=len(plan["pending"]) + 7)
+            res.note_case(("timeout", json.dumps(plan, sort_keys=True)))
+            res.count("timeout_scenarios" + ("_tcp" if real_tcp else ""))
+            res.count("timeout_checks", len(checks))
+            if r and f"timeout:{r[0]}" not in seen:
+                seen[f"timeout:{r[0]}"] = 1
+                res.failures.append(Failure(f"timeout:{r[0]}", f"rpc_timeout scenario (seed {plan['seed']}): {r[1][:400]}",
+                                            {"kind": "timeout", "plan": plan, "real_tcp": real_tcp}))
+            self._add_trace(res, trace, {"kind": "timeout", "plan": plan, "real_tcp": real_tcp}, lines, outs, spans)
+
     def _churn(self, ctx, res, n, seen, lines, outs, spans, real_tcp=False, thorough=False):
         rng = ctx.rng
         qn = V.qmi_exception_names()
@@ -1306,7 +1627,10 @@ class C02(Prop):
                     self._note_failure(res, seen, plan, f[0], f[1], f[2], f[3])
                 res.count("former_collision_keyword_replays")
                 res.note_case(("witness", nm))
-            self._scripts(ctx, res, ctx.scale(220, 2000), 8, seen, lines, outs, spans)
+            self._corpus(ctx, res, seen, lines, outs, spans)
+            self._timeouts(ctx, res, ctx.scale(50, 500), seen, lines, outs, spans)
+            ctx.log(f"fixed corpus and rpc_timeout scenarios done, {len(res.failures)} failing signatures")
+            self._scripts(ctx, res, ctx.scale(200, 2000), 8, seen, lines, outs, spans)
             ctx.log(f"scripts done: {res.evaluations} calls compared, {len(res.failures)} failing signatures")
             self._concurrent(ctx, res, ctx.scale(340, 3000), seen, lines, outs, spans, thorough=not ctx.quick)
             ctx.log(f"concurrent scenarios done ({len(lines)} trace lines)")
@@ -1329,6 +1653,8 @@ class C02(Prop):
                 self._scripts(ctx, res, 250, 8, seen, lines, outs, spans, real_tcp=True, big=True)
                 self._concurrent(ctx, res, 200, seen, lines, outs, spans, real_tcp=True, thorough=True)
                 self._churn(ctx, res, 40, seen, lines, outs, spans, real_tcp=True, thorough=True)
+                self._corpus(ctx, res, seen, lines, outs, spans, real_tcp=True)
+                self._timeouts(ctx, res, 15, seen, lines, outs, spans, real_tcp=True)
                 ctx.log("real loopback TCP scenarios done")
                 self._diff(res, lines, outs, spans)
         res.extra["occurrences_per_failure_signature"] = dict(seen)
@@ -1352,6 +1678,12 @@ class C02(Prop):
                     for f in eval_script(c["plan"], vs, c.get("real_tcp", False)):
                         self._note_failure(res, seen, c["plan"], f[0], f[1], f[2], f[3], c.get("real_tcp", False))
                     res.note_case(("case", json.dumps(c["plan"], sort_keys=True)))
+                elif c.get("kind") in ("corpus", "timeout"):
+                    f = self.replay(ctx, c)
+                    res.note_case(("case", json.dumps(c, sort_keys=True, default=repr)))
+                    if f is not None and f.signature not in seen:
+                        seen[f.signature] = 1
+                        res.failures.append(f)
                 elif c.get("kind") == "churn":
                     records, _, info = run_churn(c["plan"], real_tcp=c.get("real_tcp", False), want_trace=False)
                     r = churn_oracle(c["plan"], records, info)
@@ -1428,7 +1760,15 @@ class C02(Prop):
             self.translate(ctx)
         except Exception:  # noqa
             pass
-        with T.installed():
+        with (T.installed() if not T.is_installed() else _null()):
+            if rp.get("kind") == "corpus":
+                checks, _, _, info = run_corpus(rp["seed"], real_tcp=rp.get("real_tcp", False))
+                r = checks_oracle(checks, info)
+                return Failure(f"corpus:{r[0]}", r[1][:600], rp) if r else None
+            if rp.get("kind") == "timeout":
+                checks, _, info = run_timeouts(rp["plan"], real_tcp=rp.get("real_tcp", False), want_trace=False)
+                r = checks_oracle(checks, info, expected_count=len(rp["plan"]["pending"]) + 7)
+                return Failure(f"timeout:{r[0]}", r[1][:600], rp) if r else None
             if rp.get("kind") == "churn":
                 records, _, info = run_churn(rp["plan"], real_tcp=rp.get("real_tcp", False), want_trace=False)
                 r = churn_oracle(rp["plan"], records, info)
